@@ -130,4 +130,77 @@ def pySortedByLex {α : Type} (key : α → Int × Int) : List α → List α
   | [] => []
   | a :: as => pyInsertByLex key a (pySortedByLex key as)
 
+/-! ### added for task S3 (list stores, `pop`, `[x] * n`, `itertools.product`, the declared integer square root,
+    sum-typed parameters, error points, `while` with explicit fuel) -/
+
+/-- `l[i] = v` on a list (also the store of `l[i] += v`), with Python's negative-index wrap-around; the list is
+    unchanged where Python raises IndexError -/
+def pyListSet {α : Type} (l : List α) (i : Int) (v : α) : List α :=
+  if 0 ≤ i then l.set i.toNat v
+  else if 0 ≤ i + Int.ofNat l.length then l.set (i + Int.ofNat l.length).toNat v
+  else l
+
+/-- `l.pop(i)` used as a statement (the popped value is discarded), negative-index wrap-around; the list is
+    unchanged where Python raises IndexError -/
+def pyListPop {α : Type} (l : List α) (i : Int) : List α :=
+  if 0 ≤ i then l.eraseIdx i.toNat
+  else if 0 ≤ i + Int.ofNat l.length then l.eraseIdx (i + Int.ofNat l.length).toNat
+  else l
+
+/-- `[x] * n`: `n` copies of `x`, none for `n ≤ 0` -/
+def pyRepeat {α : Type} (x : α) (n : Int) : List α := List.replicate n.toNat x
+
+/-- `itertools.product(xs, repeat=2)`: all pairs, the first component varying slowest -/
+def pyProduct2 {α : Type} (xs : List α) : List (α × α) := xs.flatMap (fun a => xs.map (fun b => (a, b)))
+
+/-- `int(n ** 0.5)` for an int `n`: DECLARED to be the floor of the exact square root.  CPython computes the
+    double `pow(float(n), 0.5)` and truncates; the two agree while `n < 2^52` (ASSUMPTION of the translation, recorded
+    by the translator; not proved — IEEE arithmetic is outside the model).  `0` for negative `n` (Python: a
+    complex number, `int(...)` raises TypeError). -/
+def pyIsqrtFloat (n : Int) : Int := Int.ofNat (Nat.sqrt n.toNat)
+
+/-- a parameter of SUM type `None | bool | str | sequence` (declared per function in translate.py, never inferred) -/
+inductive PyArg (α : Type) where
+  | none
+  | bool (b : Bool)
+  | str (s : String)
+  | seq (l : List α)
+  deriving Repr, Inhabited
+
+/-- `x == "lit"`: true exactly for the str alternative with that text (a str never equals None, a bool or a list) -/
+def PyArg.isStr {α : Type} (x : PyArg α) (lit : String) : Bool :=
+  match x with | .str s => s == lit | _ => false
+
+/-- `x is None` -/
+def PyArg.isNone {α : Type} (x : PyArg α) : Bool := match x with | .none => true | _ => false
+
+/-- `x is True` / `x is False` -/
+def PyArg.isBool {α : Type} (x : PyArg α) (b : Bool) : Bool := match x with | .bool c => c == b | _ => false
+
+/-- the value of the `None | bool` alternatives as an Optional bool (`none` for the other alternatives, where the
+    translated code never reads it: the read is guarded by `x is None or x is False or x is True`) -/
+def PyArg.scalar {α : Type} (x : PyArg α) : Option Bool := match x with | .bool b => some b | _ => Option.none
+
+/-- the sequence alternative (`[]` for the other alternatives; a `str` that reaches `len(x)` / `return x` is outside
+    the typed subset — recorded assumption: a str argument is one of the literals the function compares with) -/
+def PyArg.asSeq {α : Type} (x : PyArg α) : List α := match x with | .seq l => l | _ => []
+
+/-- error points: `raise Cls(…)` (the message is not translated), and a `while` loop that ran out of fuel -/
+inductive PyExc where
+  | raised (cls : String)
+  | outOfFuel
+  deriving Repr, DecidableEq, Inhabited
+
+/-- `while cond: body` with explicit fuel: every evaluation of the loop test consumes one unit (also the last,
+    failing one); `.error .outOfFuel` when none is left; the body may `raise` -/
+def pyWhile {σ : Type} (fuel : Nat) (st : σ) (cond : σ → Bool) (body : σ → Except PyExc σ) : Except PyExc σ :=
+  match fuel with
+  | 0 => .error .outOfFuel
+  | f + 1 =>
+    if cond st then
+      match body st with
+      | .error e => .error e
+      | .ok st' => pyWhile f st' cond body
+    else .ok st
+
 end SymmModel.Gen
